@@ -76,8 +76,21 @@ TNlp == Ev.op = "nlp"
             (i < j /\ Ev.kw[i] \in SeqSet(Ev.uw) /\ Ev.kw[j] \in SeqSet(Ev.uw)) => IdxIn(Ev.kw[i], Ev.uw) < IdxIn(Ev.kw[j], Ev.uw))
     /\ Ev.same                                                            \* analysing the same text again gives the same analysis
 
+\* C03 (a): the candidates are exactly the documents containing a content word of the query (all of them up to ten
+\* content words, at least those of the first four otherwise); for small databases TLC recomputes the scan from token ids
+ScanOf(docs, qt) == {d \in 1..Len(docs) : \E f \in 1..4 : \E i \in 1..Len(docs[d][f]) : docs[d][f][i] \in SeqSet(qt)}
+TScan == Ev.op = "scan"
+    /\ ~Ev.panic
+    /\ (Ev.ntok <= 10 => SeqSet(Ev.res) = SeqSet(Ev.ref))
+    /\ SeqSet(Ev.first4) \subseteq SeqSet(Ev.res)
+    /\ (Ev.small => {d - 1 : d \in ScanOf(Ev.docs, Ev.qt)} = SeqSet(Ev.ref))       \* the harness' reference scan agrees with the specification's
+    /\ Ev.serr = 0                                                                  \* every score equals the BM25F sum (float kernel, harness side)
+    /\ Cardinality(SeqSet(Ev.res)) = Len(Ev.res)
+\* C03 (b): after any history of load / merge / replace / grow the answer equals that of a freshly loaded database
+THist == Ev.op = "hist" /\ ~Ev.panic /\ Ev.ans = Ev.fresh
+
 TraceInit == l = 1
-TraceNext == l <= Len(Trace) /\ l' = l + 1 /\ (TCase \/ TNlp)
+TraceNext == l <= Len(Trace) /\ l' = l + 1 /\ (TCase \/ TNlp \/ TScan \/ THist)
 TraceSpec == TraceInit /\ [][TraceNext]_l
 TraceAccepted ==
     LET d == TLCGet("stats").diameter IN
